@@ -201,6 +201,8 @@ type kvRun struct {
 	cells    map[string]bool
 	notes    []string
 	received int
+	manualExpiry int32
+	url      string
 }
 
 func dsName(full string) sgbucket.DataStoreNameImpl {
@@ -412,7 +414,7 @@ func (k *kvRun) snapshot() (Term, error) {
 			rowTerms = append(rowTerms, P(P(S(cn), S(key)), C("mkObs", get, exp, doc, B(ex), dump)))
 		}
 	}
-	return C("mkSnap", L(collTerms...), L(rowTerms...), L(orderTerms...), L()), nil
+	return C("mkSnap", L(collTerms...), L(rowTerms...), L(orderTerms...), L(P(S("nextExp"), N(uint64(k.handles[0].VerifNextExp()))))), nil
 }
 
 func (k *kvRun) resolveCas(mode, coll, key string) uint64 {
@@ -889,8 +891,15 @@ func execKvInner(in kvInput, scratch string, prog *kvProgress) (Case, error) {
 	defer rosmar.VerifSetClock(nil)
 	rosmar.VerifResetHLC(0)
 	rosmar.VerifSetHook(func(point string, args ...any) {
-		if point == "post.snapshot" {
+		switch point {
+		case "post.snapshot":
 			atomic.AddInt64(&k.posted, 1)
+		case "expiry.fire":
+			// the history decides when the expiry timer fires (steps of kind "expire" call the timer's
+			// callback synchronously); a firing of the real timer is parked for the rest of the process
+			if atomic.LoadInt32(&k.manualExpiry) == 0 {
+				select {}
+			}
 		}
 	})
 	defer rosmar.VerifSetHook(nil)
@@ -906,6 +915,7 @@ func execKvInner(in kvInput, scratch string, prog *kvProgress) (Case, error) {
 	if nh < 1 {
 		nh = 1
 	}
+	k.url = url
 	for i := 0; i < nh; i++ {
 		h, err := rosmar.OpenBucket(url, k.name, rosmar.CreateOrOpen)
 		if err != nil {
@@ -921,10 +931,12 @@ func execKvInner(in kvInput, scratch string, prog *kvProgress) (Case, error) {
 		for _, lf := range k.feeds {
 			close(lf.term)
 		}
-		for _, h := range k.handles[1:] {
-			h.Close(ctxBg)
+		if len(k.handles) > 0 {
+			for _, h := range k.handles[1:] {
+				h.Close(ctxBg)
+			}
+			_ = k.handles[0].CloseAndDelete(ctxBg)
 		}
-		_ = k.handles[0].CloseAndDelete(ctxBg)
 	}()
 	if err := k.startFeed("_default._default"); err != nil {
 		return c, err
@@ -1044,7 +1056,49 @@ func execKvInner(in kvInput, scratch string, prog *kvProgress) (Case, error) {
 			respT = C("ROk")
 		case "expire":
 			opT = C("SExpire")
+			atomic.StoreInt32(&k.manualExpiry, 1)
 			k.handles[0].VerifRunExpiry()
+			atomic.StoreInt32(&k.manualExpiry, 0)
+			respT = C("ROk")
+		case "reopen":
+			if !in.OnDisk {
+				c.Discard = "reopen step on an in-memory bucket (invalid input)"
+				break
+			}
+			opT = C("SReopen")
+			names := []string{}
+			for name, lf := range k.feeds {
+				close(lf.term)
+				names = append(names, name)
+			}
+			for _, name := range names {
+				select {
+				case <-k.feeds[name].done:
+				case <-time.After(3 * time.Second):
+					k.notes = append(k.notes, "live feed did not stop before reopen")
+				}
+				delete(k.feeds, name)
+			}
+			for _, h := range k.handles {
+				h.Close(ctxBg)
+			}
+			k.handles = nil
+			for j := 0; j < nh; j++ {
+				h, err := rosmar.OpenBucket(k.url, k.name, rosmar.ReOpenExisting)
+				if err != nil {
+					return c, fmt.Errorf("reopen: %w", err)
+				}
+				k.handles = append(k.handles, h)
+			}
+			_, order, err := k.existingColls()
+			if err != nil {
+				return c, err
+			}
+			for _, cn := range order {
+				if err := k.startFeed(cn); err != nil {
+					return c, err
+				}
+			}
 			respT = C("ROk")
 		default:
 			return c, fmt.Errorf("unknown step kind %q", st.Kind)
